@@ -3,6 +3,7 @@ package verif
 import (
 	"bytes"
 	"fmt"
+	clientCmd "github.com/bokysan/socketace/v2/internal/commands/client"
 	"io"
 	"net"
 	"strings"
@@ -101,10 +102,14 @@ func wireBytes(r *Run, w *World) []byte {
 }
 
 func clientSecurity(w *World) (found bool, secure bool, tech string) {
-	if w.Client == nil {
+	return clientSecurityOf(w.Client)
+}
+
+func clientSecurityOf(cmd *clientCmd.Command) (found bool, secure bool, tech string) {
+	if cmd == nil {
 		return
 	}
-	var c net.Conn = w.Client.Upstream.SimCurrent()
+	var c net.Conn = cmd.Upstream.SimCurrent()
 	if c == nil {
 		return
 	}
@@ -161,6 +166,9 @@ func c04matrix(r *Run, cell c04cell) {
 	cfg := WorldCfg{Carrier: cell.Carrier, ClientSecure: cell.Secure, ClientInsecure: cell.Insecure, ClientCA: "good"}
 	if cell.Cert {
 		cfg.ServerCert = "good"
+		// in half of these runs the server reads certificate and key from files whenever it needs them
+		// (a read takes simulated time, during which other connections are served)
+		cfg.ServerCertFiles = c.Chance(1, 2, "cert-files")
 	}
 	cfg.Channels = []ChanCfg{{Name: "alpha", Target: "tcp://" + TargetIP + ":7001"}}
 	lsn := LsnCfg{Channel: "alpha", Kind: "tcp", Addr: "127.0.0.1:6001"}
@@ -170,81 +178,143 @@ func c04matrix(r *Run, cell c04cell) {
 		r.Fail("world-setup", "could not build world: %v", err)
 		return
 	}
-	lc := &LConn{I: 0, TIdx: 0, Lsn: lsn, Mode: "active"}
-	lc.PlanA = Partition(c, 1024, "app-part")
-	lc.PlanT = Partition(c, 1024, "tgt-part")
-	cs := NewConnSet(r, w, "app", []*LConn{lc})
+	// 0-2 further clients (each its own process-like client command) connect to the freshly started
+	// server at the same time as the first one: what one client is offered must not depend on the others
+	clients := []*clientCmd.Command{w.Client}
+	nextra := 0
+	if !strings.HasPrefix(cell.Carrier, "stdio") {
+		nextra = c.Pick(3, "more-clients")
+	}
+	conns := []*LConn{{I: 0, TIdx: 0, Lsn: lsn, Mode: "active"}}
+	for i := 1; i <= nextra; i++ {
+		l := LsnCfg{Channel: "alpha", Kind: "tcp", Addr: fmt.Sprintf("127.0.0.1:%d", 6001+i)}
+		cmd, err := w.NewClient([]LsnCfg{l})
+		if err != nil {
+			r.Fail("world-setup", "client %d: %v", i, err)
+			return
+		}
+		clients = append(clients, cmd)
+		conns = append(conns, &LConn{I: i, TIdx: 0, Lsn: l, Mode: "active"})
+	}
+	r.Info["clients"] = len(clients)
+	for _, lc := range conns {
+		lc.PlanA = Partition(c, 1024, "app-part")
+		lc.PlanT = Partition(c, 1024, "tgt-part")
+	}
+	cs := NewConnSet(r, w, "app", conns)
 	pol := &NetPolicy{ChunkBias: c.Pick(3, "chunk-bias")}
+	if nextra > 0 {
+		pol.Burst = 3
+		r.YieldsOn("yield-seed")
+		r.Count("concurrent_first_clients")
+	}
 	extra := func() []Ev { return append(cs.OpenEv(nil), cs.PeerEvents()...) }
 	goal := func() bool {
 		cs.Assign()
 		if !cs.AllOpened() {
 			return false
 		}
-		if cs.Complete(lc, false) {
-			return true
+		for _, lc := range conns {
+			if cs.Complete(lc, false) {
+				continue
+			}
+			_, _, eof, rerr, _, _ := lc.App.Snapshot()
+			if !(eof || rerr != nil) {
+				return false
+			}
 		}
-		_, _, eof, rerr, _, _ := lc.App.Snapshot()
-		return eof || rerr != nil
+		return true
 	}
 	out := r.Drive(pol, goal, extra, 90*time.Second, 10*time.Minute)
+	r.YieldsOff()
 	if out == Aborted {
 		return
 	}
 	cs.Assign()
-	established := cs.Complete(lc, false)
 	wire := wireBytes(r, w)
-	inClear := false
-	for _, win := range append(windows(lc.App.TxKey, lc.WantA), windows(TargetKey(r.Seed, w.Targets[0].Index, 0), lc.WantT)...) {
-		if bytes.Contains(wire, win) {
-			inClear = true
-		}
-	}
-	sig := "cell=" + cell.String()
-	found, cliSecure, cliTech := clientSecurity(w)
-	srvTLS := false
+	srvTLS := 0
 	for _, l := range r.hook.lines {
 		if strings.Contains(l, "[Server] Connection encrypted using TLS") {
-			srvTLS = true
+			srvTLS++
 		}
 	}
 	carrierEnc := CarrierEncrypted(cell.Carrier)
 	mustBeProtected := cell.Secure || carrierEnc || cell.Cert // -s, encrypted carrier, or StartTLS on offer
-	r.Info["established"] = established
-	r.Info["payload_in_clear_on_wire"] = inClear
-	r.Info["client_reports"] = fmt.Sprintf("found=%v secure=%v tech=%s", found, cliSecure, cliTech)
-	switch {
-	case established && mustBeProtected && inClear:
-		r.FailSig("plaintext-on-protected-session", sig, "cell %s: the session was established and application payload appears in clear on the carrier (client reports secure=%v tech=%s)", cell, cliSecure, cliTech)
+	sig := "cell=" + cell.String()
+	nEst, nTLSClients := 0, 0
+	anyClear := false
+	for i, lc := range conns {
+		established := cs.Complete(lc, false)
+		inClear := false
+		tkey := uint64(0)
+		if lc.Tp != nil {
+			tkey = lc.Tp.TxKey
+		}
+		wins := windows(lc.App.TxKey, lc.WantA)
+		if tkey != 0 {
+			wins = append(wins, windows(tkey, lc.WantT)...)
+		}
+		for _, win := range wins {
+			if bytes.Contains(wire, win) {
+				inClear = true
+			}
+		}
+		anyClear = anyClear || inClear
+		found, cliSecure, cliTech := clientSecurityOf(clients[i])
+		if established {
+			nEst++
+			if found && cliTech == "tls" {
+				nTLSClients++
+			}
+		}
+		r.Info[fmt.Sprintf("client%d", i)] = fmt.Sprintf("established=%v in_clear=%v found=%v secure=%v tech=%s", established, inClear, found, cliSecure, cliTech)
+		who := fmt.Sprintf("cell %s, client %d of %d", cell, i, len(conns))
+		switch {
+		case established && mustBeProtected && inClear:
+			r.FailSig("plaintext-on-protected-session", sig, "%s: the session was established and application payload appears in clear on the carrier (client reports secure=%v tech=%s)", who, cliSecure, cliTech)
+			return
+		case established && found && cliSecure && inClear:
+			r.FailSig("plaintext-on-protected-session", sig, "%s: the client reports the session secure (%s) but application payload appears in clear on the carrier", who, cliTech)
+			return
+		case established && cell.Secure && found && !cliSecure:
+			r.FailSig("insecure-session-accepted", sig, "%s: the client requires security but carries application data over a session it reports as not secure", who)
+			return
+		case established && cell.Cert && !carrierEnc && found && cliTech != "tls":
+			r.FailSig("starttls-not-upgraded", sig, "%s: the server offers StartTLS on an unencrypted carrier and a session was established, but client tech=%s", who, cliTech)
+			return
+		case !established && lc.Tp != nil && cell.Secure && !cell.Cert && !carrierEnc:
+			r.FailSig("insecure-session-accepted", sig, "%s: no session should exist, yet the target accepted a connection", who)
+			return
+		}
+	}
+	if !carrierEnc && nTLSClients != srvTLS && !(nTLSClients < srvTLS && nEst < len(conns)) {
+		// (a client whose session failed after the server's side of the upgrade completed may leave the server one ahead)
+		r.FailSig("ends-disagree", sig, "cell %s: %d client(s) report a StartTLS session, the server upgraded %d", cell, nTLSClients, srvTLS)
 		return
-	case established && found && cliSecure && inClear:
-		r.FailSig("plaintext-on-protected-session", sig, "cell %s: the client reports the session secure (%s) but application payload appears in clear on the carrier", cell, cliTech)
+	}
+	if cell.Cert && !carrierEnc && nEst > 0 && srvTLS < nEst {
+		r.FailSig("starttls-not-upgraded", sig, "cell %s: %d session(s) established on an endpoint offering StartTLS, the server upgraded only %d", cell, nEst, srvTLS)
 		return
-	case established && cell.Secure && found && !cliSecure:
-		r.FailSig("insecure-session-accepted", sig, "cell %s: the client requires security but carries application data over a session it reports as not secure", cell)
-		return
-	case established && cell.Cert && !carrierEnc && found && (cliTech != "tls" || !srvTLS):
-		r.FailSig("starttls-not-upgraded", sig, "cell %s: the server offers StartTLS on an unencrypted carrier and a session was established, but client tech=%s, server upgraded=%v", cell, cliTech, srvTLS)
-		return
-	case established && found && !carrierEnc && (cliTech == "tls") != srvTLS:
-		r.FailSig("ends-disagree", sig, "cell %s: client reports %s, server StartTLS upgraded=%v", cell, cliTech, srvTLS)
-		return
-	case !established && (len(w.Targets[0].Peers()) > 0) && cell.Secure && !cell.Cert && !carrierEnc:
+	}
+	if !cell.Secure || cell.Cert || carrierEnc {
+		// nothing more
+	} else if len(w.Targets[0].Peers()) > 0 {
 		r.FailSig("insecure-session-accepted", sig, "cell %s: no session should exist, yet the target accepted a connection", cell)
 		return
 	}
 	// sanity of the observer: a legitimately plaintext session must show the payload on the wire
-	if established && !mustBeProtected && !CarrierIsKCP(cell.Carrier) {
-		if !inClear {
+	if nEst > 0 && !mustBeProtected && !CarrierIsKCP(cell.Carrier) {
+		if !anyClear {
 			r.Fail("observer-blind", "cell %s: plaintext session but the wire observer did not see the payload (harness problem)", cell)
 			return
 		}
 		r.Count("plaintext_session_observed")
 	}
-	if established {
-		r.Count("sessions_established")
-	} else {
-		r.Count("sessions_refused")
+	if nEst > 0 {
+		r.CountN("sessions_established", nEst)
+	}
+	if nEst < len(conns) {
+		r.CountN("sessions_refused", len(conns)-nEst)
 	}
 	r.NonTriv = true
 }
